@@ -55,6 +55,10 @@ type Mesh struct {
 	mu      sync.Mutex
 	derived []Derived
 	rxA     []Rx
+	rxB     []Rx
+
+	ackBurst    atomic.Int64 // how many copies of each harness-played ACK are sent back-to-back (0 = 1)
+	playUDPExit atomic.Bool  // the harness answers UDP_OPEN itself (ACK burst scenario)
 
 	icmpMu   sync.Mutex
 	icmpSess map[uint64]*icmpExitSess // harness-played ICMP exit, by stream id
@@ -302,6 +306,22 @@ func Start() (*Mesh, error) {
 	m.icmpSess = map[uint64]*icmpExitSess{}
 	B := m.B
 	B.VerifPeerManager().SetFrameCallback(func(p identity.AgentID, f *protocol.Frame) {
+		switch f.Type {
+		case protocol.FrameStreamData, protocol.FrameUDPDatagram, protocol.FrameICMPEcho:
+			cp := &protocol.Frame{Type: f.Type, Flags: f.Flags, StreamID: f.StreamID, Payload: append([]byte(nil), f.Payload...)}
+			m.mu.Lock()
+			m.rxB = append(m.rxB, Rx{Peer: p, Frame: cp})
+			m.mu.Unlock()
+		}
+		if m.playUDPExit.Load() {
+			switch f.Type {
+			case protocol.FrameUDPOpen:
+				m.udpExitOpen(f)
+				return
+			case protocol.FrameUDPDatagram, protocol.FrameUDPClose:
+				return
+			}
+		}
 		switch f.Type {
 		case protocol.FrameICMPOpen, protocol.FrameICMPEcho, protocol.FrameICMPClose:
 			m.icmpExitFrame(p, f)
